@@ -171,6 +171,8 @@ func runC06(c *eng.Ctx) {
 	rulePauseDecidesOnTheRuntimeFlag(c)
 	c.Rule("R12.5", "K5")
 	ruleRestoredGroupReplaysTheJoins(c)
+	c.Rule("R16.8", "K6")
+	ruleStreamConfigCopiesAreComplete(c)
 	p := c.P
 	P := applyPath(c)
 	var pkeys []string
